@@ -27,7 +27,7 @@ PROPS["C14"] = dict(
     units=[
         dict(name="exhaustive", run="^TestC14Exhaustive$", shards=(4, 16), timeout=(200, 1500)),
         dict(name="shapes", run="^TestC14Shapes$", checks=(3000, 30000), shards=(1, 8), timeout=(200, 1500)),
-        dict(name="rapid", run="^TestC14Rapid$", checks=(20000, 60000), shards=(2, 16), timeout=(200, 1500)),
+        dict(name="rapid", run="^TestC14Rapid$", checks=(10000, 60000), shards=(4, 16), timeout=(200, 1500)),
         dict(name="independent", run="^TestC14Independent$", checks=(300, 3000), shards=(1, 4), timeout=(200, 1500)),
         dict(name="held", run="^TestC14Held$", shards=(1, 3), timeout=(200, 900)),
     ],
